@@ -74,10 +74,12 @@ CHECKS['C10'] = dict(
         'at the real widths: for every modulo value (boundary set quick, all 512 thorough) x every in-buffer offset x both modes the '
         '+-1 step is the cyclic walk of [base, base+mod] with untouched alignment bits; linear stepping, end-pointer zeroing, bit '
         'reversal and zero steps; every encoding of the address-modifying instruction families is executed by the real interpreter '
-        'and validated in full by TLC.',
+        'and validated in full by TLC. The repository\'s own hardware test vectors for modulo and double-step addressing '
+        '(mod_test_generator, step2_test_generator, built from the working tree) go both ways: executed and validated by TLC, and the '
+        'state TLC predicts for them judged by the repository\'s test_verifier.',
    design_ref='5.10',
    note='Trusted: TLC, CommunityModules, g++, the frozen TLA+ semantics. The walk theorem is stated for start addresses inside the buffer.',
-   technique='TLA+ spec: TLC theorems over the full modulo domain + TLC trace validation of real instruction executions')
+   technique='TLA+ spec: TLC theorems over the full modulo domain + TLC trace validation of real instruction executions + replay of TLC-predicted states through the repository\'s own test_verifier')
 CHECKS['C20'] = dict(
    text='TLC checks read-back, read-only, frame and cross-view theorems for all 19 words (all 65536 written values in the thorough '
         'tier) on the slot tables of TeakRegs.tla; the real RegisterState::Set<>/Get<> is validated against the same tables on random '
